@@ -180,10 +180,44 @@ class Run:
         return self.trace
 
 
+def wind_down(r: "Run", do=None):
+    """An environment that eventually answers every hook, closes every connection and delivers every close, so that
+    the end-of-behaviour obligation is judged even when a behaviour stopped early or the code diverged from the
+    model's behaviour."""
+    env = r.env
+    do = do or r.step
+    for _ in range(80):
+        if r.done:
+            break
+        if env.pending_hook() is not None:
+            do("HookDone", "pass")
+        elif env.drv.opens_pending():
+            do("OpenDone", "fail")
+        elif env.readable(env.client):
+            do("ClientFin")
+        elif env.echo_pending(env.client):
+            do("ClientEcho")
+        elif any(env.echo_pending(c) or env.readable(c) for c in env.servers):
+            c = next(c for c in env.servers if env.echo_pending(c) or env.readable(c))
+            if c is env.server:
+                do("ServerEcho") or do("ServerFin")
+            elif not env.echo(c):  # an older server connection: same events, addressed directly
+                env.fin(c)
+        elif env.quiescent():
+            do("Quiesce")
+        else:
+            break
+
+
 def run_ops(ops):
     r = Run()
     for a, x in ops:
-        if r.done or not r.step(a, x):
+        if r.done:
+            break
+        if not r.step(a, x):
+            # the action is not enabled on the real objects (the code diverged from the model): keep going as a
+            # well-behaved environment would, so that the end-of-behaviour obligation is still judged
+            wind_down(r)
             break
     return r.finish()
 
@@ -265,29 +299,7 @@ def run_random(seed: int, n: int, nflows: int):
             st["resp"] = "body" if x in ("cl", "chunked", "eof", "badval") else "idle"
         elif a == "ServerEnd":
             st["resp"] = "idle"
-    # wind down: an environment that eventually answers every hook, closes and delivers every close
-    for _ in range(60):
-        if r.done:
-            break
-        if env.pending_hook() is not None:
-            do("HookDone", "pass")
-        elif env.drv.opens_pending():
-            do("OpenDone", "fail")
-        elif env.readable(env.client):
-            do("ClientFin")
-        elif env.echo_pending(env.client):
-            do("ClientEcho")
-        elif env.server is not None and any(env.echo_pending(c) or env.readable(c) for c in env.servers):
-            c = next(c for c in env.servers if env.echo_pending(c) or env.readable(c))
-            if c is env.server:
-                do("ServerEcho") or do("ServerFin")
-            else:  # an older server connection: same events, addressed directly
-                if not env.echo(c):
-                    env.fin(c)
-        elif env.quiescent():
-            do("Quiesce")
-        else:
-            break
+    wind_down(r, do)
     return r.finish(), ops
 
 
